@@ -117,3 +117,66 @@ class RecordingErrorModel(chi.ErrorModel):
         m, y = self._rec('s1', parameters, model_output, observations, model_sensitivities)
         s = np.asarray(model_sensitivities)
         return 0.0, np.zeros(s.shape[1] + self._n_par)
+
+
+class PolyToyModel(chi.MechanisticModel):
+    """Pure-Python mechanistic model with any number of parameters (Coq: Model/LogLik.v `ptoy_out`):
+
+          out_o(t) = sum_k p_k * (1 + k*t + o)            (k = 0 .. n_parameters-1, o = 0 .. n_outputs-1)
+
+    positive for positive parameters and t >= 0; exact in doubles for dyadic inputs."""
+    def __init__(self, n_parameters=3, n_outputs=1):
+        super().__init__()
+        self._np = n_parameters
+        self._outputs = ['out%d' % o for o in range(n_outputs)]
+        self._sel = list(range(n_outputs))
+        self._names = ['p%d' % k for k in range(n_parameters)]
+        self._has_sens = False
+        self._sens_idx = list(range(n_parameters))
+        self.log = []
+
+    def copy(self):
+        return copy.deepcopy(self)
+
+    def enable_sensitivities(self, enabled, parameter_names=None):
+        self._has_sens = bool(enabled)
+        self._sens_idx = list(range(self._np)) if parameter_names is None else \
+            [i for i, n in enumerate(self._names) if n in list(parameter_names)]
+
+    def has_sensitivities(self):
+        return self._has_sens
+
+    def n_outputs(self):
+        return len(self._sel)
+
+    def n_parameters(self):
+        return self._np
+
+    def outputs(self):
+        return [self._outputs[o] for o in self._sel]
+
+    def parameters(self):
+        return list(self._names)
+
+    def set_outputs(self, outputs):
+        self._sel = [self._outputs.index(o) for o in outputs]
+
+    def set_parameter_names(self, names):
+        self._names = [names.get(n, n) for n in self._names]
+
+    def supports_dosing(self):
+        return False
+
+    def simulate(self, parameters, times):
+        p = [float(x) for x in parameters]
+        t = np.asarray(times, dtype=float)
+        self.log.append((tuple(p), tuple(float(x) for x in t)))
+        y = np.array([sum(p[k] * (1 + k * t + o) for k in range(self._np)) for o in self._sel]).reshape(
+            len(self._sel), len(t))
+        if not self._has_sens:
+            return y
+        s = np.empty((len(t), len(self._sel), self._np))
+        for j, o in enumerate(self._sel):
+            for k in range(self._np):
+                s[:, j, k] = 1 + k * t + o
+        return y, s[:, :, self._sens_idx]
